@@ -1,29 +1,31 @@
 (* CorrC15.v — correspondence checker for C15: evaluates the Operators.v models on the
    arguments/inputs the Go harness ran the real operators on and compares with what was observed. *)
 From Verif Require Import Base Utf8 Operators.
+From Coq Require Import String.
 Open Scope N_scope.
+Notation sstr x := (str x%string) (only parsing).
 
 Inductive case :=
   (* direct registry call of a macro-argument operator; res = None: constructor error *)
   | CMop (o : mop) (arg : bytes) (tx : list (bytes * bytes)) (value : bytes) (res : option bool)
   (* @pm: ltbl = unicode.ToLower on the non-ASCII runes of arg (oracle); caps = TX.0-9 afterwards *)
-  | CPm (ltbl : list (N * N)) (arg value : bytes) (capturing : bool) (res : bool) (caps : list (option bytes))
+  | CPm (ltbl : list (N * N)) (arg value : bytes) (capturing : bool) (res : bool) (caps : list bytes)
   (* @pmFromFile: data = file content *)
-  | CPmf (ltbl : list (N * N)) (data value : bytes) (capturing : bool) (res : bool) (caps : list (option bytes))
+  | CPmf (ltbl : list (N * N)) (data value : bytes) (capturing : bool) (res : bool) (caps : list bytes)
   (* @pmFromDataset: the data set itself *)
-  | CPmd (phrases : list bytes) (value : bytes) (capturing : bool) (res : bool) (caps : list (option bytes))
+  | CPmd (phrases : list bytes) (value : bytes) (capturing : bool) (res : bool) (caps : list bytes)
   | CVbr (arg value : bytes) (res : option bool)
   | CVue (value : bytes) (res : bool)
   | CVutf8 (value : bytes) (res : bool)
   (* @rx: m = FindStringSubmatchIndex of Go's regexp on the same pattern (oracle) *)
-  | CRx (m : option (list Z)) (value : bytes) (capturing : bool) (res : bool) (caps : list (option bytes))
+  | CRx (m : option (list Z)) (value : bytes) (capturing : bool) (res : bool) (caps : list bytes)
   (* ParseOperator + SetOperator observed through the verif hook: compiled?, Function, Data, Negation *)
   | CParse (optext : bytes) (known : bool) (fn data : bytes) (neg : bool)
   (* single-rule WAF: res = None: the rule does not compile;
      Some (matched, TX.0-9 read directly, copies tx.c0-9 made by setvar when matched) *)
   | CRule (optext : bytes) (ltbl : list (N * N)) (m : option (list Z)) (capturing : bool)
           (tx : list (bytes * bytes)) (value : bytes)
-          (res : option (bool * list (option bytes) * list bytes)).
+          (res : option (bool * list bytes * list bytes)).
 
 Definition opt_bytes_eqb (a b : option bytes) : bool :=
   match a, b with
@@ -44,18 +46,28 @@ Definition opt_bool_eqb (a b : option bool) : bool :=
   | _, _ => false
   end.
 
-Definition caps_of (tx : txvars) : list (option bytes) :=
-  map (fun i => tx_get tx (itoa (N.of_nat i))) (seq 0 10).
+(* TX.0 .. TX.9 (always present: WAF.newTransaction sets them to ""), with trailing empty
+   entries dropped to keep the case files small *)
+Fixpoint trim_empties (l : list bytes) : list bytes :=
+  match l with
+  | [] => []
+  | x :: r => match x, trim_empties r with
+              | [], [] => []
+              | _, r' => x :: r'
+              end
+  end.
+Definition caps_of (tx : txvars) : list bytes :=
+  trim_empties (map (fun i => match tx_get tx (itoa (N.of_nat i)) with Some v => v | None => sstr "<absent>" end) (seq 0 10)).
 
-Definition check_caps (r : bool * list bytes) (capturing res : bool) (caps : list (option bytes)) : bool :=
-  Bool.eqb (fst r) res && list_eqb opt_bytes_eqb (caps_of (store_captures capturing tx_init 0 (snd r))) caps.
+Definition check_caps (r : bool * list bytes) (capturing res : bool) (caps : list bytes) : bool :=
+  Bool.eqb (fst r) res && list_eqb bytes_eqb (caps_of (store_captures capturing tx_init 0 (snd r))) caps.
 
 Definition ok (c : case) : bool :=
   match c with
   | CMop o arg tx v res => opt_bool_eqb (run_mop o arg (tx ++ tx_init) v) res
   | CPm t arg v cap res caps => check_caps (pm_eval (pm_phrases t arg) cap v) cap res caps
   | CPmf t data v cap res caps => check_caps (pm_eval (pmf_phrases t data) cap v) cap res caps
-  | CPmd ps v cap res caps => check_caps (pm_eval ps cap v) cap res caps
+  | CPmd ps v cap res caps => check_caps (pm_eval (pmd_phrases ps) cap v) cap res caps
   | CVbr arg v res => opt_bool_eqb (run_vbr arg v) res
   | CVue v res => Bool.eqb (vue_eval v) res
   | CVutf8 v res => Bool.eqb (vutf8_eval v) res
@@ -71,8 +83,8 @@ Definition ok (c : case) : bool :=
     match rule_eval o t m cap (tx ++ tx_init) v, res with
     | None, None => true
     | Some (matched, tx'), Some (matched', caps, copies) =>
-      Bool.eqb matched matched' && list_eqb opt_bytes_eqb (caps_of tx') caps
-      && (negb matched || list_eqb bytes_eqb (map (copy_of_capture tx') (seq 0 10)) copies)
+      Bool.eqb matched matched' && list_eqb bytes_eqb (caps_of tx') caps
+      && (negb matched || list_eqb bytes_eqb (trim_empties (map (copy_of_capture tx') (seq 0 10))) copies)
     | _, _ => false
     end
   end.
